@@ -2,7 +2,7 @@
    table computed by the harness, and what the real lexer returned.  [check_case] runs the
    model on the same line and compares the projected observable: accept/reject, and for an
    accepted line every field.  Error kinds are not compared (the property does not fix them). *)
-From GS Require Export Base.Bytes Base.CorrLib Model.Lexer.
+From GS Require Export Base.Bytes Base.CorrLib Model.Lexer Model.LexGrammar.
 Local Open Scope N_scope.
 
 Inductive obs :=
@@ -33,5 +33,29 @@ Definition obs_matches (o : obs) (m : outcome) : bool :=
 
 Definition model_of (c : lexcase) : outcome := lex (oracle (lc_table c)) (lc_ns c) (lc_line c).
 
-Definition check_case (c : lexcase) : bool := obs_matches (lc_obs c) (model_of c).
+(* Sanity tie for C02_language / C02_parse_to_spec: for every line without NUL that the REAL lexer
+   accepted, the derivation [parse_to_spec] exists, renders back to the line, and the result the
+   grammar promises for that derivation is what the real lexer returned. *)
+Definition nul_free (l : str) : bool := forallb (fun b => negb (b =? c_nul)) l.
+
+Definition expected_of_spec (pf : str -> pfres) (ns : str) (s : spec) : outcome :=
+  match s with
+  | SMetric raw val ty attrs => expected_metric pf ns raw val ty attrs
+  | SEvent _ _ title text attrs => OEvent (expected_event' title text attrs)
+  end.
+
+Definition derivation_ok (c : lexcase) : bool :=
+  match lc_obs c with
+  | OM _ _ _ _ _ _ | OE _ _ _ _ _ _ _ _ _ =>
+      if nul_free (lc_line c) then
+        match parse_to_spec (lc_line c) with
+        | Some s => str_eqb (render_spec s) (lc_line c)
+                    && obs_matches (lc_obs c) (expected_of_spec (oracle (lc_table c)) (lc_ns c) s)
+        | None => false
+        end
+      else true
+  | _ => true
+  end.
+
+Definition check_case (c : lexcase) : bool := obs_matches (lc_obs c) (model_of c) && derivation_ok c.
 Definition explain_case := model_of.
